@@ -539,6 +539,14 @@ func main() {
 	if s.out.EnvReads == nil {
 		s.out.EnvReads = []Site{}
 	}
+	// files are loaded in no fixed order: list the sites by position in the source
+	sort.SliceStable(s.out.EnvReads, func(i, j int) bool {
+		a, b := s.out.EnvReads[i], s.out.EnvReads[j]
+		if a.File != b.File {
+			return a.File < b.File
+		}
+		return a.Line < b.Line
+	})
 	if s.out.GoStmts == nil {
 		s.out.GoStmts = []Site{}
 	}
